@@ -201,6 +201,14 @@ func oracleC03(x *Exec, so *StepObs) {
 			}
 			x.Sim.Probe("cleanup-deleted-created")
 		}
+		// … and only those: an object of the new manifest that was there before the upgrade was not created by it
+		for _, q := range r.Reqs {
+			if q.Verb != "DELETE" || q.Status != 200 || q.ID == nil || !mids[q.ID.String()] || before.Cluster[q.ID.String()] == nil {
+				continue
+			}
+			fail("cleanup-on-fail", fmt.Sprintf("%s existed before the failed upgrade (it was not created by it) and was deleted by the cleanup", q.ID))
+			return
+		}
 	}
 }
 
